@@ -36,7 +36,7 @@ KEYS = list(SPEC)
 def _pool(tier):
     # (D, K, L, M, R)
     base = [(1, 1, 2, 3, 1), (2, 1, 3, 2, 2), (3, 2, 1, 3, 3), (2, 3, 2, 1, 1), (4, 2, 3, 1, 2), (3, 1, 2, 4, 2),
-            (5, 3, 1, 2, 1), (2, 2, 4, 3, 3)]
+            (5, 3, 1, 2, 1), (2, 2, 4, 3, 3), (2, 1, 3, 2, 20)]  # the last one: a batch beyond 16
     if tier == "thorough":
         base += [(6, 2, 3, 1, 2), (1, 3, 1, 2, 4), (4, 5, 2, 3, 1), (3, 4, 5, 1, 2), (5, 1, 3, 2, 3), (2, 5, 1, 4, 4),
                  (6, 1, 2, 3, 1), (3, 3, 4, 2, 4), (4, 1, 5, 2, 2), (2, 4, 3, 5, 2)]
